@@ -59,3 +59,39 @@ def run_signature(args):
     if problems:
         return {"signature": S, "bare_star": bare_star, "problem": "; ".join(problems)}
     return None
+
+
+# body arguments of a call with content: `args=` of <%ns:def> / <%call> declares the parameters caller.body(...) binds
+BODY_ARGS = [
+    ("x", "1"), ("x, y=2", "1"), ("x, y=2", "1, y=5"), ("x, *rest", "1, 2, 3"), ("*, label", "label='L'"), ("x, *, label='d'", "1"),
+    ("x, *, label='d'", "1, label='L'"), ("idx, **kw", "1, extra='e'"), ("*rest, k", "1, k=2"), ("**kw", "a=1, b=2"), ("x=1, *, k=2, **kw", "k=3, z=4"),
+]
+
+
+def run_body_args(args):
+    import inspect as _inspect
+    from mako.template import Template
+    sig, call, form = args
+    ns = {}
+    exec("def body(%s): return locals()" % sig, ns)
+    names = list(_inspect.signature(ns["body"]).parameters)
+    native = eval("body(%s)" % call, ns)
+    want = repr([native[n] for n in names])
+    shown = "${repr([%s])}" % ", ".join(names)
+    head = '<%%def name="w()">${caller.body(%s)}</%%def>' % call
+    if form == "ns-tag":
+        src = head + '<%%self:w args="%s">%s</%%self:w>' % (sig, shown)
+    else:
+        src = head + '<%%call expr="w()" args="%s">%s</%%call>' % (sig, shown)
+    decoys = {n: "CTX-" + n for n in names}        # the same names in the context must not shadow the body's parameters
+    try:
+        out = Template(src).render_unicode(**decoys).strip()
+    except Exception as e:
+        out = "%s: %s" % (type(e).__name__, str(e)[:100])
+    if out != want:
+        return {"args": sig, "call": "caller.body(%s)" % call, "form": form, "template": src, "expected": want, "got": out}
+    return None
+
+
+def body_args_cases():
+    return [(s, c, f) for s, c in BODY_ARGS for f in ("ns-tag", "call-tag")]
